@@ -10,6 +10,8 @@
    order); the former witnesses corpus/fun/c15-wt-instance-order*.sc are regression inputs now. *)
 From Coq Require Import List String Bool Permutation.
 From SCC Require Import Lang.FunSyn Model.Check Sem.FunTyping Sem.FunErase Proof.CheckWitness Proof.CheckAnn Proof.TypingReject Proof.CheckMono Proof.CheckProof.
+From SCC Require Import Proof.PrintInj Proof.CheckPoly Proof.CheckPolySound Proof.CheckPolyProg Proof.CheckPolyProgC Proof.CheckPolyProof.
+From SCC Require Import Sem.FunNames Sem.FunClosed Proof.CheckBuild Proof.CheckInst Proof.CheckArity.
 Import ListNotations.
 
 (* Soundness, full statement: `forall p q, check p = COk q -> has_type p`.  False: an ill-formed
@@ -213,3 +215,204 @@ Theorem C15_reject_duplicate_constructor : forall l1 n ps c1 k sg1 c2 sg2 c3 l2,
   has_type_b (mkfprog (l1 ++ FDData (mkfdata n ps (c1 ++ mkfctor k sg1 :: c2 ++ mkfctor k sg2 :: c3)) :: l2)) = false.
 Proof. exact reject_duplicate_constructor. Qed.
 Print Assumptions C15_reject_duplicate_constructor.
+
+(* ====================================================================================================
+   Round 2: the polymorphic fragment (type parameters, type arguments, instances keyed by printed names)
+   ==================================================================================================== *)
+
+(* ---------- soundness and completeness for programs WITH type parameters ----------
+   Two boolean guards:
+     [prog_names_ok p]  (Proof/CheckPolyProg.v)  every type / constructor / destructor name occurring in p
+        is free of the characters "[" "]" "," " " and is not "i64".  True of every parsed program (the lexer's
+        classes [A-Z][a-zA-Z0-9_]* and [a-z][a-zA-Z0-9_]*, "i64" being a keyword); needed because instances are
+        keyed by PRINTED names: without it a type may be NAMED like an instance ([C15_names_guard_needed]).
+     [decl_types_wf ts] (Proof/CheckPolyProg.v)  the types written inside the data/codata declarations are
+        well-formed: exactly the part of [decls_ok] that the checker does not establish (known finding
+        C15-lazy-declaration-types, [C15_check_sound_refuted]); implied by [has_type].
+   GAP to the full statement: none other than these guards. *)
+Theorem C15_check_sound_poly_partial : forall p q,
+  prog_names_ok p = true -> decl_types_wf (tdecls (fpdecls p)) = true -> check p = COk q -> has_type p.
+Proof. exact check_sound_poly. Qed.
+Print Assumptions C15_check_sound_poly_partial.
+Theorem C15_check_complete_poly_partial : forall p,
+  prog_names_ok p = true -> has_type p -> exists q, check p = COk q.
+Proof. exact check_complete_poly'. Qed.
+Print Assumptions C15_check_complete_poly_partial.
+(* for identifier-like names the checker accepts exactly the programs that satisfy the typing rules
+   with the declaration types checked by head name only *)
+Theorem C15_check_exact_poly_partial : forall p, prog_names_ok p = true ->
+  (has_type p <-> (exists q, check p = COk q) /\ decl_types_wf (tdecls (fpdecls p)) = true).
+Proof. exact check_exact_poly. Qed.
+Print Assumptions C15_check_exact_poly_partial.
+Theorem C15_check_order_independent_poly_partial : forall p p', prog_names_ok p = true -> prog_names_ok p' = true ->
+  decl_types_wf (tdecls (fpdecls p)) = true -> decl_types_wf (tdecls (fpdecls p')) = true ->
+  (has_type p <-> has_type p') -> ((exists q, check p = COk q) <-> (exists q, check p' = COk q)).
+Proof. exact check_order_independent_poly. Qed.
+Print Assumptions C15_check_order_independent_poly_partial.
+(* the checker before fix d524b1f was sound under the same guards, so the fix only added acceptances *)
+Theorem C15_regression_before_fix_sound_poly_partial : forall p q,
+  prog_names_ok p = true -> decl_types_wf (tdecls (fpdecls p)) = true -> check_before_fix p = COk q ->
+  has_type p /\ exists q', check p = COk q'.
+Proof.
+  intros p q Hn Hw H. split; [eapply check_before_fix_sound_poly; eassumption|].
+  eapply check_before_fix_accepts_check_accepts_poly; eassumption.
+Qed.
+Print Assumptions C15_regression_before_fix_sound_poly_partial.
+(* the guards are satisfiable by a program with nested instances at several types, which is well-typed
+   and accepted (corpus/fun/c15-poly-nested-instances.sc) ... *)
+Example C15_poly_guards_satisfiable :
+  prog_names_ok p_poly = true /\ decl_types_wf (tdecls (fpdecls p_poly)) = true /\ has_type p_poly
+  /\ exists q, check p_poly = COk q
+       /\ map fdaname (fcpdata q) = ["List[List[i64]]"; "List[i64]"; "Pair[List[i64], i64]"; "Pair[i64, List[i64]]"]%string
+       /\ map fcoaname (fcpcodata q) = ["Fun[i64, i64]"]%string.
+Proof. exact (conj p_poly_names_ok (conj p_poly_decl_types_wf (conj p_poly_well_typed p_poly_accepted))). Qed.
+Print Assumptions C15_poly_guards_satisfiable.
+(* ... and the name guard cannot be dropped (a syntax tree whose type is literally named "List[i64]") *)
+Theorem C15_names_guard_needed :
+  ~ (forall p q, decl_types_wf (tdecls (fpdecls p)) = true -> check p = COk q -> has_type p).
+Proof. exact check_sound_without_names_guard_refuted. Qed.
+Print Assumptions C15_names_guard_needed.
+
+(* ---------- the instance table ----------
+   Instances are keyed by PRINTED names (`List[i64]`, `Pair[i64, List[i64]]`); later stages find the
+   declaration of a type by that name (fun2core::compile_ty, lookup_type_declaration: "Type .. not found").
+   (a) printing is injective in (head, arguments) for identifier-like names - two different instances never
+       share a name, and no parsed declaration can be named like an instance; without the condition it is not; *)
+Theorem C15_instance_names_injective : forall n1 a1 n2 a2,
+  name_ok n1 = true -> name_ok n2 = true -> tys_names_ok a1 = true -> tys_names_ok a2 = true ->
+  print_ty (FDecl n1 a1) = print_ty (FDecl n2 a2) -> n1 = n2 /\ a1 = a2.
+Proof.
+  intros n1 a1 n2 a2 H1 H2 A1 A2 E.
+  assert (FDecl n1 a1 = FDecl n2 a2) as Heq by (apply print_ty_inj; [rewrite ty_names_ok_decl, H1, A1|rewrite ty_names_ok_decl, H2, A2|exact E]; reflexivity).
+  inversion Heq. auto.
+Qed.
+Print Assumptions C15_instance_names_injective.
+Example C15_instance_names_collide_without_guard :
+  print_ty (FDecl "List" [FI64]) = print_ty (FDecl "List[i64]" [])
+  /\ print_ty (FDecl "P" [FDecl "A" []; FDecl "B" []]) = print_ty (FDecl "P" [FDecl "A, B" []])
+  /\ print_ty (FDecl "P" [FI64]) = print_ty (FDecl "P" [FDecl "i64" []]).
+Proof. exact print_collision_without_name_ok. Qed.
+Print Assumptions C15_instance_names_collide_without_guard.
+(* (b) the declarations of the checked program have pairwise different names ... *)
+Theorem C15_instance_names_distinct : forall p q,
+  prog_names_ok p = true -> check p = COk q -> NoDup (decl_names q).
+Proof. exact (check_instance_names_distinct true). Qed.
+Print Assumptions C15_instance_names_distinct.
+(* ... and each of them is a declared template instantiated (positionally) at well-formed type arguments,
+   under the printed name of that instance; *)
+Theorem C15_instances_are_instantiated_templates : forall p q,
+  prog_names_ok p = true -> check p = COk q ->
+  Forall (is_data_instance (tdecls (fpdecls p))) (fcpdata q) /\ Forall (is_codata_instance (tdecls (fpdecls p))) (fcpcodata q).
+Proof. exact (check_instances_spec true). Qed.
+Print Assumptions C15_instances_are_instantiated_templates.
+(* (c) closure. [defs_closed q] (Sem/FunClosed.v): every type of a definition signature, every let annotation,
+   every annotation of a variable / call / constructor / destructor / `new` term and every type argument of a
+   destructor call or case is i64 or has a declaration in q under its printed name.  These are the types of all
+   producers, i.e. everything a later stage looks up.  GAP to the full statement [fcprog_closed]: the field types
+   of the instance declarations, the binder contexts of clauses and the annotations merely passed down
+   (if / print / let / label / goto / exit / case) need not be declared - see the refutation below. *)
+Theorem C15_output_closed_partial : forall p q,
+  prog_names_ok p = true -> check p = COk q -> defs_closed q = true.
+Proof. exact (check_output_closed true). Qed.
+Print Assumptions C15_output_closed_partial.
+(* the declared names are closed under type arguments: with `List[Pair[i64, Foo]]` also `Pair[i64, Foo]` and `Foo` *)
+Theorem C15_instances_closed_under_type_arguments : forall p q n a,
+  prog_names_ok p = true -> check p = COk q -> name_ok n = true -> tys_names_ok a = true ->
+  In (print_ty (FDecl n a)) (decl_names q) -> forallb (ty_declared (decl_names q)) a = true.
+Proof. exact (check_instances_closed_under_targs true). Qed.
+Print Assumptions C15_instances_closed_under_type_arguments.
+(* full closure is FALSE of the faithful model and of the real checker (corpus/fun/c15_unused_field_type.sc,
+   c15_unused_instance_field.sc): create_instance inserts the substituted field types without Ty::check, clause
+   binders are not checked either.  Not a defect by itself: the program is well-typed, and no later stage looks the
+   undeclared type up (C12's stage checkers and all three code generators accept the witnesses). *)
+Theorem C15_output_closed_refuted : ~ (forall p q, has_type p -> check p = COk q -> fcprog_closed q = true).
+Proof. exact output_closed_refuted. Qed.
+Print Assumptions C15_output_closed_refuted.
+Example C15_output_closed_witness :
+  prog_names_ok p_unused_field_type = true /\ has_type_b p_unused_field_type = true
+  /\ exists q, check p_unused_field_type = COk q /\ decl_names q = ["Foo"%string] /\ defs_closed q = true /\ fcprog_closed q = false.
+Proof. exact unused_field_type_witness. Qed.
+Print Assumptions C15_output_closed_witness.
+(* (d) the internal panic of check_with_table ("Couldn't find constructor .. in symbol_table") is unreachable:
+   once the definitions are checked, every instance has all its xtor instances *)
+Theorem C15_collect_cannot_panic : forall p st defs st1,
+  prog_names_ok p = true -> build_symbol_table p = COk st ->
+  check_defs (defs_of (fpdecls p)) st = COk (defs, st1) ->
+  exists das cos, collect_types st1 (st_types st1) = COk (das, cos).
+Proof. exact (collect_cannot_panic true). Qed.
+Print Assumptions C15_collect_cannot_panic.
+
+(* ---------- arity: a wrong number of type arguments is rejected by the CHECKER at every site ----------
+   [bad_arity ts t] (Proof/CheckArity.v): somewhere inside t (at the top or nested in its arguments) a declared
+   type is applied to a number of arguments different from its number of parameters - too few or too many.
+   One theorem per site; "for all programs" with identifier-like names (every parsed program).  They rest on
+   Ty::check being sound for [wf_ty], whose arity test is an equality: with the model's test
+   `args.len() != params.len()` weakened to `<` the proofs fail (tried: Proof/CheckPoly.v breaks, the theorems of
+   round 1 do not).  Surplus and missing arguments at every syntactic site are the mutation class `type-args`
+   of the correspondence run. *)
+Theorem C15_arity_definition_signature : forall p d t, prog_names_ok p = true -> In d (fdefs (fpdecls p)) ->
+  In t (fdret d :: map fbty (fdctx d)) -> bad_arity (tdecls (fpdecls p)) t -> exists e, check p = CErr e.
+Proof. exact arity_def_signature. Qed.
+Print Assumptions C15_arity_definition_signature.
+Theorem C15_arity_let_annotation : forall p d x vty a b r, prog_names_ok p = true -> In d (fdefs (fpdecls p)) ->
+  occurs (FLet x vty a b r) (fdbody d) -> bad_arity (tdecls (fpdecls p)) vty -> exists e, check p = CErr e.
+Proof. exact arity_let_annotation. Qed.
+Print Assumptions C15_arity_let_annotation.
+Theorem C15_arity_destructor : forall p d s k targs args r, prog_names_ok p = true -> In d (fdefs (fpdecls p)) ->
+  occurs (FDtor s k targs args r) (fdbody d) ->
+  (forall td sg, In td (tdecls (fpdecls p)) -> find_xsig td k = Some sg -> List.length targs <> List.length (td_params td))
+  \/ (exists t, In t targs /\ bad_arity (tdecls (fpdecls p)) t) ->
+  exists e, check p = CErr e.
+Proof. exact arity_destructor. Qed.
+Print Assumptions C15_arity_destructor.
+Theorem C15_arity_case : forall p d s targs c0 cls r, prog_names_ok p = true -> In d (fdefs (fpdecls p)) ->
+  occurs (FCase s targs (c0 :: cls) r) (fdbody d) ->
+  (forall td sg, In td (tdecls (fpdecls p)) -> find_xsig td (clause_xtor c0) = Some sg -> List.length targs <> List.length (td_params td))
+  \/ (exists t, In t targs /\ bad_arity (tdecls (fpdecls p)) t) ->
+  exists e, check p = CErr e.
+Proof. exact arity_case. Qed.
+Print Assumptions C15_arity_case.
+(* constructor and `new` carry no type arguments of their own: the arguments are those of the type they are
+   checked against.  In every state the checker can be in ([tables], [pinv]: established by build_symbol_table,
+   preserved by every step) the check against a declared type with a wrong number of arguments fails. *)
+Theorem C15_arity_constructor : forall ts fs, poly_world ts fs -> forall eager st ctx x args r n targs td,
+  tables ts fs st -> pinv ts st -> ctx_names_ok ctx = true ->
+  term_names_ok (FCtor x args r) = true -> ty_names_ok (FDecl n targs) = true ->
+  find_type ts n = Some td -> List.length targs <> List.length (td_params td) ->
+  exists e, check_term_gen eager (FCtor x args r) st ctx (FDecl n targs) = CErr e.
+Proof. exact arity_constructor. Qed.
+Print Assumptions C15_arity_constructor.
+Theorem C15_arity_new : forall ts fs, poly_world ts fs -> forall eager st ctx cls r n targs td,
+  tables ts fs st -> pinv ts st -> ctx_names_ok ctx = true ->
+  term_names_ok (FNew cls r) = true -> ty_names_ok (FDecl n targs) = true ->
+  find_type ts n = Some td -> List.length targs <> List.length (td_params td) ->
+  exists e, check_term_gen eager (FNew cls r) st ctx (FDecl n targs) = CErr e.
+Proof. exact arity_new. Qed.
+Print Assumptions C15_arity_new.
+(* Ty::check itself *)
+Theorem C15_arity_ty_check : forall ts fs, poly_world ts fs -> forall st t,
+  tables ts fs st -> pinv ts st -> ty_names_ok t = true -> bad_arity ts t -> exists e, ty_check t st = CErr e.
+Proof. exact arity_ty_check. Qed.
+Print Assumptions C15_arity_ty_check.
+(* the types written in data/codata declarations: the SPECIFICATION rejects, for all programs ... *)
+Theorem C15_reject_wrong_type_argument_count_decl_field : forall p td s t,
+  In td (tdecls (fpdecls p)) -> In s (td_xtors td) ->
+  (In t (map fbty (xs_args s)) \/ xs_ret s = Some t) ->
+  bad_arity_in_decl (tdecls (fpdecls p)) (td_params td) t -> has_type_b p = false.
+Proof. exact reject_wrong_type_argument_count_decl_field. Qed.
+Print Assumptions C15_reject_wrong_type_argument_count_decl_field.
+(* ... the checker does not: known finding C15-lazy-declaration-types (witness `data Foo { C(x: List) }`) *)
+Theorem C15_arity_declaration_field_refuted :
+  ~ (forall p td s t, prog_names_ok p = true -> In td (tdecls (fpdecls p)) -> In s (td_xtors td) ->
+       (In t (map fbty (xs_args s)) \/ xs_ret s = Some t) ->
+       bad_arity_in_decl (tdecls (fpdecls p)) (td_params td) t -> exists e, check p = CErr e).
+Proof. exact arity_decl_field_refuted. Qed.
+Print Assumptions C15_arity_declaration_field_refuted.
+(* satisfiable: surplus / missing / nested wrong applications at a signature, a let, a destructor, a case *)
+Example C15_arity_examples :
+  check p_arity_sig = CErr EWrongNumberOfTypeArguments /\ check p_arity_let = CErr EWrongNumberOfTypeArguments
+  /\ check p_arity_dtor = CErr EWrongNumberOfTypeArguments /\ check p_arity_case = CErr EWrongNumberOfTypeArguments
+  /\ prog_names_ok p_arity_sig = true /\ prog_names_ok p_arity_let = true
+  /\ prog_names_ok p_arity_dtor = true /\ prog_names_ok p_arity_case = true.
+Proof. exact arity_examples. Qed.
+Print Assumptions C15_arity_examples.
